@@ -1,24 +1,1 @@
-// ---- RFC 9000 §16 variable-length integers as a spec function (same definition as kani/_spec.rs spec_varint_dec:
-// length from the two most significant bits of the first byte, value = remaining 6 bits then big-endian bytes).
-pub open spec fn spec_varint_len(first: u8) -> nat {
-    if first < 64 { 1 } else if first < 128 { 2 } else if first < 192 { 4 } else { 8 }
-}
-pub open spec fn spec_be(v: nat, s: Seq<u8>) -> nat
-    decreases s.len()
-{
-    if s.len() == 0 { v } else { spec_be(v * 256 + s[0] as nat, s.skip(1)) }
-}
-/// Some((value, length)) when `s` starts with a complete encoding (minimal or not), None when truncated / empty.
-pub open spec fn spec_varint_dec(s: Seq<u8>) -> Option<(nat, nat)> {
-    if s.len() == 0 || s.len() < spec_varint_len(s[0]) { None }
-    else { let n = spec_varint_len(s[0]); Some((spec_be((s[0] % 64) as nat, s.subrange(1, n as int)), n)) }
-}
-/// decoding depends only on the bytes of the encoding itself: later bytes (later chunks) cannot change it
-pub proof fn lemma_varint_dec_prefix(s: Seq<u8>, t: Seq<u8>)
-    requires spec_varint_dec(s) is Some, s.is_prefix_of(t),
-    ensures spec_varint_dec(t) == spec_varint_dec(s),
-{
-    let n = spec_varint_len(s[0]);
-    assert(t[0] == s[0]);
-    assert(t.subrange(1, n as int) =~= s.subrange(1, n as int));
-}
+//@include vdec.rs
